@@ -183,3 +183,21 @@ Definition body_again (fr : framing) (first : berr) : berr :=
 
 Definition client_reads_again (sticky : bool) (fr : framing) (first : berr) (k : nat) : list berr :=
   if sticky then repeat first k else repeat (body_again fr first) k.
+
+(* ---------- the connection reported EOF; interim heads over several exchanges ----------
+
+   persistConn.Read records io.EOF from the connection (sawEOF) whatever came with it - also
+   when the final bytes of a complete message and io.EOF arrive in the same Read; readLoop never
+   offers such a connection to the idle pool. *)
+Definition conn_reusable (saw_eof : bool) (cv : client_view) : bool :=
+  negb saw_eof && cv_reusable cv.
+
+(* readResponse counts the interim heads of ONE response (num1xx is a local of readResponse):
+   [exchange_from n0] is the exchange with the count starting at n0; the real one starts at 0 on
+   every exchange, a count carried on the connection (seeded g-m2) starts where the previous
+   exchanges left off. *)
+Definition exchange_from (n0 : nat) (meth : bytes) (seg : bytes) : option (resp * body_result) :=
+  match read_final 7 meth n0 seg with
+  | FhOk r rest => Some (r, read_body conn_bufsize r rest)
+  | _ => None
+  end.
